@@ -68,7 +68,8 @@ def main():
             # the change as a plain patch against the /repo HEAD it was confirmed on (re-based if later fix: commits moved the lines)
             rc2, rebased = sh(['git', '-C', wt, 'diff'])
             open(os.path.join(dst, 'patch.diff'), 'w').write(rebased if rc2 == 0 and rebased.strip() else open(os.path.join(d, 'patch.diff')).read())
-            shutil.copy(demo, dst)
+            if os.path.abspath(d) != os.path.abspath(dst):
+                shutil.copy(demo, dst)
             meta['confirmed'] = {'tests': out['tests'], 'demo_exit_with_change': out['demo_mutant'], 'demo_exit_without_change': out['demo_clean'],
                                  'ran': 'tools/eval_mutant.py: scratch worktree of /repo HEAD, git apply, pytest, demo.py, ./check %s --tier quick with DESPER_REPO=<worktree>' % prop,
                                  'repo_head': sh(['git', '-C', '/repo', 'rev-parse', '--short', 'HEAD'])[1].strip(),
